@@ -10,7 +10,7 @@ from ..core import Result
 
 POOL_MAX = 6
 SAVE_FORMATS = ['h5', 'xtc', 'dcd', 'nc', 'pdb', 'xyz', 'gro', 'trr', 'lammpstrj', 'mdcrd']
-CELL_FORMATS = ['h5', 'nc', 'dcd', 'xtc', 'trr', 'lammpstrj', 'gro', 'pdb', 'dtr']
+CELL_FORMATS = ['h5', 'nc', 'dcd', 'xtc', 'trr', 'lammpstrj', 'gro', 'pdb', 'dtr', 'mdcrd', 'mdcrd']
 ANALYSES = ['distances', 'rg', 'com', 'sasa', 'dssp', 'angles', 'dihedrals', 'neighbors', 'contacts', 'displacements',
             'inertia', 'rmsd_ai']
 CELL_KINDS = ['cubic', 'ortho', 'mono', 'hex60', 'hex120', 'truncoct', 'rhombdod', 'tric', 'tric', 'neardeg']
@@ -836,6 +836,8 @@ def execute(check, case, workdir):
                     continue
             elif kind == 'save_load':
                 fmt = op['fmt']
+                if fmt == 'mdcrd' and m.xyz.shape[1] == 1:
+                    fmt = 'nc'      # a one-atom mdcrd frame (3 numbers) is indistinguishable from a box line: format ambiguity
                 flags = 'fmt=%s,cell=%s' % (fmt, 'complete' if m.complete else ('half' if (m.L is not None or m.A is not None) else 'none'))
                 p = os.path.join(workdir, 'c%d.%s' % (stepno, fmt))
                 ok = True
@@ -854,10 +856,10 @@ def execute(check, case, workdir):
                             viol('save_load', 'unloadable', {'error': '%s: %s' % (type(e).__name__, str(e)[:200])}, stepno, flags)
                         continue
                     res.log.append('%d save_load(%s) m%d -> cell %s' % (stepno, fmt, m.id, r.unitcell_lengths is not None))
-                    # formats that must write *some* box (lammpstrj, dtr) are only judged for complete inputs
-                    if m.complete or fmt not in ('lammpstrj', 'dtr', 'mdcrd'):
-                        if not judge_cell_completeness(r, m.complete, 'save_load', stepno, flags):
-                            continue
+                    # a complete cell may come back exactly when one went in: a writer may refuse an incomplete (half-set) cell
+                    # or write none, but the loaded trajectory must not have a cell the saved one did not have
+                    if not judge_cell_completeness(r, m.complete, 'save_load', stepno, flags):
+                        continue
                     if judge17 and m.complete and fmt not in ('pdb', 'mdcrd'):
                         if not np.allclose(r.unitcell_lengths, m.L, rtol=2e-3, atol=2e-3) or not np.allclose(r.unitcell_angles, m.A, atol=5e-2):
                             viol('save_load', 'cell_values', {'saved_L': m.L.tolist()[:2], 'loaded_L': r.unitcell_lengths.tolist()[:2],
